@@ -861,6 +861,8 @@ func runC10(c *Ctx) {
 	// wrappers of different kinds keep their per-cell measurements side by side in the cells' property store: one
 	// kind's set must leave the other kind's value alone (C12's R12.1/R12.2)
 	r.Rule("R10.5", "per-cell measurements of differently wrapped renderers coexist in the property store")
+	importFreshState(c, "R10.5", "texttable")
+	importFreshState(c, "R10.5", "markdown")
 	importPremises(c, "R10.5", "property-store premise ", "nesting or re-wrapping would drop the other wrapper's measurements", func(o *Ob) bool { return o.Rule == "R12.1" || o.Rule == "R12.2" }, func() { runC12(c) })
 	// every render measures afresh: the render-callback pass is made, in full, by every RenderTo (C13's R13.3/R13.5),
 	// so a wrapper kept from earlier and a wrapper made just now lay the same table out the same way
